@@ -22,6 +22,52 @@ Theorem C17_rel_err_scale_invariant : forall c d p, c <> 0%Qc -> sqnorm d <> 0%Q
 Proof. exact rel_err_scale_invariant. Qed.
 Print Assumptions C17_rel_err_scale_invariant.
 
+(* determinant, square selection: the criterion is |det B_S|: never negative, and its square is det^2 *)
+Theorem C17_optimality_square_nonneg : forall BS, length BS = length (hd [] BS) -> (0 <= optimality BS)%Qc.
+Proof. exact optimality_square_nonneg. Qed.
+Print Assumptions C17_optimality_square_nonneg.
+
+Theorem C17_optimality_square_sq : forall BS, length BS = length (hd [] BS) -> (optimality BS * optimality BS = det BS * det BS)%Qc.
+Proof. exact optimality_square_sq. Qed.
+Print Assumptions C17_optimality_square_sq.
+
+(* the Laplace expansion of the model is the familiar 2 x 2 formula *)
+Theorem C17_det2 : forall a b c d : Qc, (det [[a; b]; [c; d]] = a * d - b * c)%Qc.
+Proof. exact det2. Qed.
+Print Assumptions C17_det2.
+
+(* tall selection: entry (i, j) of the matrix whose determinant is taken is the inner product of COLUMNS (modes) i and j
+   of B_S over the selected sensors - B_S^T B_S, not B_S B_S^T - and that matrix is symmetric *)
+Theorem C17_transpose_mul_entry : forall A i j, i < length (hd [] A) -> j < length (hd [] A) ->
+  nth j (nth i (transpose_mul A) []) 0%Qc = qsum (map (fun r => nth i r 0 * nth j r 0)%Qc A).
+Proof. exact transpose_mul_entry. Qed.
+Print Assumptions C17_transpose_mul_entry.
+
+Theorem C17_transpose_mul_sym : forall A i j, i < length (hd [] A) -> j < length (hd [] A) ->
+  nth j (nth i (transpose_mul A) []) 0%Qc = nth i (nth j (transpose_mul A) []) 0%Qc.
+Proof. exact transpose_mul_sym. Qed.
+Print Assumptions C17_transpose_mul_sym.
+
+(* one mode, any p >= 2 sensors: det(B_S^T B_S) is the squared norm of that mode over the selected sensors
+   (the transposed product B_S B_S^T would have rank one and determinant 0) *)
+Theorem C17_optimality_one_mode : forall col, 2 <= length col ->
+  optimality (map (fun v => [v]) col) = qsum (map (fun v => v * v)%Qc col).
+Proof. exact optimality_one_mode. Qed.
+Print Assumptions C17_optimality_one_mode.
+
+(* two modes, any p >= 3 sensors: det(B_S^T B_S) = |a|^2 |b|^2 - <a, b>^2, hence never negative (Cauchy-Schwarz) *)
+Theorem C17_optimality_two_modes : forall l : list (Qc * Qc), 3 <= length l ->
+  optimality (map (fun p => [fst p; snd p]) l) =
+  (qsum (map (fun p => fst p * fst p) l) * qsum (map (fun p => snd p * snd p) l)
+   - qsum (map (fun p => fst p * snd p) l) * qsum (map (fun p => fst p * snd p) l))%Qc.
+Proof. exact optimality_two_modes. Qed.
+Print Assumptions C17_optimality_two_modes.
+
+Theorem C17_optimality_two_modes_nonneg : forall l : list (Qc * Qc), 3 <= length l ->
+  (0 <= optimality (map (fun p => [fst p; snd p]) l))%Qc.
+Proof. exact optimality_two_modes_nonneg. Qed.
+Print Assumptions C17_optimality_two_modes_nonneg.
+
 Example C17_example :
   mse [[q 1 1; q 2 1]; [q 3 1; q 4 1]] [[q 1 1; q 0 1]; [q 3 1; q 2 1]] = q 2 1 /\
   optimality [[q 2 1; q 1 1]; [q 1 1; q 3 1]] = q 5 1 /\ optimality [[q 0 1; q 1 1]; [q 2 1; q 0 1]] = q 2 1 /\
